@@ -122,6 +122,18 @@ def tree_of(case):
     return tree
 
 
+CLI_FLAGS = {"dialect": "--dialect", "rules": "--rules", "exclude_rules": "--exclude-rules", "templater": "--templater"}
+
+
+def cli_args(case, paths):
+    args = ["lint", "--format", "json"]
+    if case.get("extra"):
+        args += ["--config", "../extra/" + case["extra"]["fmt"]]
+    for k, v in (case.get("overrides") or {}).items():
+        args += [CLI_FLAGS[k], str(v)]
+    return args + list(paths)
+
+
 def root_spec(case):
     return {"extra": ("../extra/" + case["extra"]["fmt"]) if case.get("extra") else None,
             "overrides": dict(case.get("overrides") or {})}
@@ -341,6 +353,9 @@ def gen_case(rnd, kind):
         for op in ops:
             if op["op"] != "config":
                 op["linter"] = "shared" if rnd.random() < 0.75 else "new"
+        if set(case["overrides"]) <= set(CLI_KEYS) and rnd.random() < 0.8:
+            # the same project through the real command line (a separate process started by the driver)
+            ops.insert(rnd.randint(0, len(ops)), {"op": "cli", "paths": rnd.choice([paths, ["."], [rnd.choice(paths)]])})
     case["ops"] = ops
     return case
 
@@ -384,7 +399,8 @@ class C27(Check):
         "Operations run in ONE child process (cwd = project, HOME = case home): 'hierarchy' cases read every file's "
         "config back and lint all files in one lint_paths call; 'history' cases play 8-15 steps (lint one file / "
         "several / a directory, config read-back, lint the file's text as a string through the per-file or the root "
-        "config, parse; shared or new Linter; repeated steps). Oracles: (1) FluffConfig values read back per file "
+        "config, parse; shared or new Linter; repeated steps; when every override has a command line option also one "
+        "real `sqlfluff lint --format json --config .. --dialect .. --rules ..` run). Oracles: (1) FluffConfig values read back per file "
         "(with inline, child without inline, root) equal the model 'highest-precedence source that sets the key'; "
         "(2) violations and rendered text equal a lint of the same text under a config built directly from the model's "
         "values; (3) history cases: every file's result in every step equals the file linted alone in a fresh process; "
@@ -464,7 +480,10 @@ class C27(Check):
         ops = []
         for op in case["ops"]:
             op = dict(op)
-            op["root"] = rspec
+            if op["op"] == "cli":
+                op.update(json=True, args=cli_args(case, op["paths"]))
+            else:
+                op["root"] = rspec
             ops.append(op)
         # labels / non-triviality from the model
         conflict = False
@@ -486,6 +505,8 @@ class C27(Check):
             out.label("overrides")
         if any(f["inline"] for f in case["files"]):
             out.label("inline")
+        if any(op["op"] == "cli" for op in case["ops"]):
+            out.label("real-cli-run")
         if len({json.dumps(expected_readback(effective(case, f)), default=str) for f in case["files"]}) > 1:
             out.label("files-differ-in-effective-config")
 
@@ -541,7 +562,11 @@ class C27(Check):
             return
         if kind == "parse":
             return
-        if kind == "lint":
+        if kind == "cli" and "files" not in res:
+            out.fail("step %d sqlfluff %s: rc=%s %s %s" % (i, " ".join(op["args"]), res.get("rc"), res.get("json_error"), res.get("stderr", "")[-200:]),
+                     clause="cli-failed", rc=res.get("rc"))
+            return
+        if kind in ("lint", "cli"):
             want = set()
             for p in op["paths"]:
                 if p in files:
@@ -551,13 +576,13 @@ class C27(Check):
                     want |= {q for q in files if q.startswith(pref)}
             got = set(res["files"])
             if got != want:
-                out.fail("step %d lint%s reported files %s, expected %s" % (i, op["paths"], sorted(got), sorted(want)),
-                         clause="fileset")
+                out.fail("step %d %s%s reported files %s, expected %s" % (i, kind, op["paths"], sorted(got), sorted(want)),
+                         clause="fileset", op=kind)
             for p in sorted(got & want):
                 eff = effective(case, files[p])
-                self.compare(out, i, "lint", p, texts[p], eff, res["files"][p])
+                self.compare(out, i, kind, p, texts[p], eff, res["files"][p])
                 if p in fresh:
-                    self.isolation(out, i, "lint", p, res["files"][p], fresh[p])
+                    self.isolation(out, i, kind, p, res["files"][p], fresh[p])
             return
         if kind == "lint_string_file":
             p = op["path"]
@@ -597,7 +622,7 @@ class C27(Check):
             out.fail("fresh lint of %s failed: %s" % (p, fres), clause="fresh-error", exc=fres["error"])
             return
         frec = fres["files"].get(p)
-        if frec is None or frec["v"] != rec["v"] or frec["rendered"] != rec["rendered"]:
+        if frec is None or frec["v"] != rec["v"] or (rec["rendered"] is not None and frec["rendered"] != rec["rendered"]):
             out.fail("step %d %s(%s) differs from the file linted alone in a fresh process: %s vs %s" % (
                 i, opname, p, rec["v"][:6], (frec or {}).get("v", [])[:6]), clause="isolation",
                 codes=codes_diff(rec["v"], (frec or {}).get("v", [])))
